@@ -530,3 +530,7 @@ fn usize_to_f32(n: usize) -> f32 {
         .expect("Matrix too large")
         .into()
 }
+
+#[cfg(kani)]
+#[path = "/verif/kani/similarity.rs"]
+mod verif_kani;
